@@ -638,3 +638,4 @@ PROPS["C13"]["rule"] += " System cases run with and without CheckExistence. Acce
 PROPS["C07"]["rule"] += " Half of the histories run with the cron state hooks installed (as sys.System does), and histories may clear the location, which must succeed whatever has expired in it and leave storage empty."
 PROPS["C17"]["rule"] += " The histories also use enable, remRule, getRule, searchRules and the location-stats requests. A third part (concurrent-create) runs with existence checking: 2-8 clients issue 1-4 first requests each for a location that does not exist yet - checked requests (GetSize, which must fail until the location is created), unchecked loads (what an inherited search does for a parent) and CreateLocation - with spin delays, schedule noise and optionally 200/900 pre-stored records to make loads slow; once a CreateLocation has returned without error, that client's AddFact and the read of that fact must succeed, and after the burst the location exists and every acknowledged write is visible; non-trivial = a checked request failed or was in flight when a CreateLocation started."
 PROPS["C15"]["rule"] += " Part 1 also deletes locations (Location.Delete), uses rule ids that need quoting in JSON (a double quote, a backslash, a space), schedules with white space around them, and delivers each tick with the event text that was registered for the job (which must be JSON)."
+PROPS["C15"]["rule"] += " In half of the sys.System cases A and B have a parent location P (with a fact the rules' conditions look at and a yearly rule of its own that must never run); `outage` operations switch P off for 1.1 or 2.3 s, during which ticks may fail; recurring rules must be running again afterwards."
